@@ -199,7 +199,15 @@ func c12Run(s *c12Scn, pace *json.Encoder, logEnc *json.Encoder, mu *sync.Mutex)
 	pipe.Seg = simdev.Seg{Mode: "rand", Max: 11}
 	pipe.RecordTrace = true
 	pipe.ReactDelay = time.Duration(s.DelayUs) * time.Microsecond
-	onSecret = func() { pipe.LoseAtEnd = "err" }
+	// the connection breaks the moment the secret has been received: the answer to it never arrives (every other session in
+	// three: after the answer has been delivered)
+	onSecret = func() {
+		if s.ID%3 == 2 {
+			pipe.LoseAtEnd = "err"
+		} else {
+			pipe.LoseFromHere("err")
+		}
+	}
 
 	capDebug := &logCapture{}
 	li, _ := logging.NewInstance(logging.WithLevel("debug"), logging.WithLogger(capDebug.log))
